@@ -20,6 +20,7 @@ type simOpts struct {
 	mixed        bool // allow xpcall together with coroutines (hits the open finding MSGH)
 	nonclos      bool // allow the "non-closable value" runtime error (open finding about its missing position)
 	closeRun     bool // allow handlers that call functions
+	closeStorm   bool // directed shape: coroutine closed while suspended in its body or inside a handler
 	hostBoundary bool // main chunk not wrapped in pcall: errors reach the embedding caller (open finding HOST)
 }
 
@@ -132,6 +133,14 @@ func (g *simGen) callExpr() *expr {
 			w[3], w[4], w[5], w[6], w[7], w[8] = 3, 1, 2, 1, 1, 0
 			if !g.isCoro[g.fidx] {
 				w[5] = 0
+			}
+			if g.o.closeRun {
+				// handlers that yield (they call these functions) and coroutines closed while suspended
+				// inside one
+				w[7] = 2
+				if !g.isCoro[g.fidx] {
+					w[5] = 1
+				}
 			}
 		}
 	}
@@ -281,11 +290,15 @@ func (g *simGen) stmts() []*stmt {
 		switch g.t.Weighted(12, 1, 1, 1) {
 		case 0:
 			mode, arg := 0, 0
-			switch g.t.Weighted(8, 2, 1) {
+			wm := []int{8, 2, 1}
+			if g.o.closeRun && g.o.coro {
+				wm[2] = 4
+			}
+			switch g.t.Weighted(wm...) {
 			case 1:
 				mode = 1
 			case 2:
-				if g.o.closeRun && g.fidx < g.nfun {
+				if (g.o.closeRun || g.o.coro) && g.fidx < g.nfun {
 					mode = 2
 					arg = g.fidx + 1 + g.t.Choose(g.nfun-g.fidx)
 				}
@@ -394,7 +407,112 @@ func (g *simGen) callExprNoSelect() *expr {
 	return &expr{k: eBuiltin, name: "pcall", args: []*expr{{k: eFnRef, name: "H1"}, g.simple()}}
 }
 
+// genCloseStorm builds the directed shape behind "coroutine.close of a suspended coroutine": a
+// coroutine body with to-be-closed values at several depths whose handlers may yield (they call the
+// yielding function FY) or raise, leaving by return, error or by being closed while suspended - in the
+// body or inside a handler, including a handler run because the body died of an error - and a main
+// chunk that resumes, closes and inspects the coroutine in a generated order.
+func genCloseStorm(t *core.Tape, o simOpts) *program {
+	g := &simGen{t: t, o: o, isCoro: map[int]bool{1: true, 2: true}, labelUsed: map[string]bool{}}
+	g.nfun, g.nco = 2, 1
+	p := &program{}
+	p.funcs = append(p.funcs, &funcDef{name: "H1", params: []string{"a"}, body: []*stmt{
+		{k: sEmit, tag: "handler", exps: []*expr{{k: eLocal, name: "a"}}},
+		{k: sReturn, exps: []*expr{{k: eLocal, name: "a"}, cst(intv(7))}},
+	}})
+	yield := func(k int) *stmt {
+		return &stmt{k: sEmit, tag: "resumed", exps: []*expr{{k: eBuiltin, name: "coroutine.yield", args: []*expr{cst(intv(int64(k)))}}}}
+	}
+	mkc := func() *stmt {
+		mode, arg := 0, 0
+		switch t.Weighted(3, 2, 5) {
+		case 1:
+			mode = 1
+		case 2:
+			mode, arg = 2, 2
+		}
+		id := g.id()
+		return &stmt{k: sLocalClose, name: fmt.Sprintf("x%d", id), exps: []*expr{{k: eMkc, n: int64(id), args: []*expr{cst(intv(int64(mode))), cst(intv(int64(arg)))}}}}
+	}
+	var exit func() []*stmt
+	exit = func() []*stmt {
+		switch t.Weighted(3, 2, 2, 1) {
+		case 0:
+			return []*stmt{{k: sError, exps: []*expr{cst(strv(fmt.Sprintf("m%d", 500+g.id())))}, level: 1}}
+		case 1:
+			return []*stmt{yield(100 + g.id())}
+		case 2:
+			return []*stmt{{k: sReturn, exps: []*expr{cst(intv(int64(g.id())))}}}
+		}
+		return nil
+	}
+	var nest func(depth int) []*stmt
+	nest = func(depth int) []*stmt {
+		var out []*stmt
+		for i, n := 0, 1+t.Choose(3); i < n; i++ {
+			switch t.Weighted(5, 2, 1, 2) {
+			case 0:
+				out = append(out, mkc())
+			case 1:
+				out = append(out, &stmt{k: sEmit, tag: "step", exps: []*expr{cst(intv(int64(g.id())))}})
+			case 2:
+				out = append(out, yield(200+g.id()))
+			case 3:
+				if depth < 3 {
+					inner := nest(depth + 1)
+					if t.Chance(1, 3) {
+						// a protected call in between: errors of the inner part are caught inside the coroutine
+						name := fmt.Sprintf("P%d", g.id())
+						p.funcs = append(p.funcs, &funcDef{name: name, body: inner})
+						out = append(out, &stmt{k: sEmit, tag: "pc", exps: []*expr{{k: eBuiltin, name: "pcall", args: []*expr{{k: eFnRef, name: name}}}}})
+					} else {
+						out = append(out, &stmt{k: sDo, body: inner})
+					}
+				}
+			}
+		}
+		if x := exit(); x != nil && (depth > 0 || t.Chance(3, 4)) {
+			if len(x) == 1 && (x[0].k == sReturn || x[0].k == sError) {
+				out = append(out, x...)
+			} else {
+				out = append(out, x...)
+			}
+		}
+		return out
+	}
+	// F2: what yielding handlers call
+	fy := &funcDef{name: "F2", body: []*stmt{{k: sEmit, tag: "in2"}, yield(1)}}
+	if t.Chance(1, 4) {
+		fy.body = append(fy.body, yield(2))
+	}
+	if t.Chance(1, 4) {
+		fy.body = append(fy.body, &stmt{k: sError, exps: []*expr{cst(strv("m777"))}, level: 1})
+	}
+	body := []*stmt{{k: sEmit, tag: "in1"}}
+	body = append(body, nest(0)...)
+	p.funcs = append(p.funcs, &funcDef{name: "F1", body: body}, fy)
+	fr := &expr{k: eFnRef, name: "F1"}
+	p.main = append(p.main, &stmt{k: sAssignG, name: "C1", exps: []*expr{{k: eBuiltin, name: "coroutine.create", args: []*expr{fr}}}})
+	p.main = append(p.main, &stmt{k: sAssignG, name: "W1", exps: []*expr{{k: eBuiltin, name: "coroutine.wrap", args: []*expr{fr}}}})
+	c1 := &expr{k: eGlobal, name: "C1"}
+	for i, n := 0, 2+t.Choose(7); i < n; i++ {
+		switch t.Weighted(5, 3, 2) {
+		case 0:
+			p.main = append(p.main, &stmt{k: sEmit, tag: "res", exps: []*expr{{k: eBuiltin, name: "coroutine.resume", args: []*expr{c1, cst(intv(int64(i)))}}}})
+		case 1:
+			p.main = append(p.main, &stmt{k: sEmit, tag: "cl", exps: []*expr{{k: eBuiltin, name: "pcall", args: []*expr{{k: eFnRef, name: "coroutine.close"}, c1}}}})
+		default:
+			p.main = append(p.main, &stmt{k: sEmit, tag: "st", exps: []*expr{{k: eBuiltin, name: "coroutine.status", args: []*expr{c1}}}})
+		}
+	}
+	p.main = append(p.main, &stmt{k: sEmit, tag: "end"})
+	return p
+}
+
 func genSim(t *core.Tape, o simOpts) *program {
+	if o.closeStorm {
+		return genCloseStorm(t, o)
+	}
 	g := &simGen{t: t, o: o, isCoro: map[int]bool{}, labelUsed: map[string]bool{}, stormLeft: 2}
 	g.nfun = 2 + t.Choose(4)
 	if o.coro {
